@@ -80,12 +80,17 @@ theorem lev_cons_ne {id c : Nat} (o : Option Nat) (lv : Lv) (h : c ≠ id) : Lv.
 theorem mem_ids_of_lev {lv : Lv} {c l : Nat} (h : lv.lev c = some l) : c ∈ lv.map Prod.fst :=
   List.mem_map_of_mem (f := Prod.fst) (Lv.mem_of_lev h)
 
-theorem LvOK.lev_lt {lv : Lv} {d c l : Nat} (h : LvOK lv d) (hl : lv.lev c = some l) : l < d :=
+theorem LvOK.lev_lt {lv : Lv} {d c l : Nat} (h : LvOK mo lv d) (hl : lv.lev c = some l) : l < d :=
   h.below _ (Lv.mem_of_lev hl) l rfl
 
-theorem LvOK.push {lv : Lv} {d id : Nat} (h : LvOK lv d) (hid : id ≠ 0) (hn : id ∉ lv.map Prod.fst) :
-    LvOK ((id, some d) :: lv) (d + 1) := by
-  refine ⟨List.nodup_cons.2 ⟨hn, h.nodup⟩, ?_, ?_, ?_⟩
+theorem LvOK.push {lv : Lv} {d id : Nat} (h : LvOK mo lv d) (hid : id ≠ 0) (hn : id ∉ lv.map Prod.fst) :
+    LvOK mo ((id, some d) :: lv) (d + 1) := by
+  refine ⟨List.nodup_cons.2 ⟨hn, h.nodup⟩, ?_, ?_, ?_, fun dN hdN => Nat.lt_succ_of_lt (h.lo dN hdN), ?_⟩
+  rotate_right
+  · intro dN hdN e he l hl
+    rcases List.mem_cons.1 he with rfl | he
+    · simp only [Option.some.injEq] at hl; subst hl; exact h.lo dN hdN
+    · exact h.above dN hdN e he l hl
   · intro e he
     rcases List.mem_cons.1 he with rfl | he
     · exact hid
@@ -100,9 +105,14 @@ theorem LvOK.push {lv : Lv} {d id : Nat} (h : LvOK lv d) (hid : id ≠ 0) (hn : 
     · simp only [Option.some.injEq] at hl; omega
     · have := h.below e he l hl; omega
 
-theorem LvOK.pushNone {lv : Lv} {d id : Nat} (h : LvOK lv d) (hid : id ≠ 0) (hn : id ∉ lv.map Prod.fst) :
-    LvOK ((id, none) :: lv) d := by
-  refine ⟨List.nodup_cons.2 ⟨hn, h.nodup⟩, ?_, ?_, ?_⟩
+theorem LvOK.pushNone {lv : Lv} {d id : Nat} (h : LvOK mo lv d) (hid : id ≠ 0) (hn : id ∉ lv.map Prod.fst) :
+    LvOK mo ((id, none) :: lv) d := by
+  refine ⟨List.nodup_cons.2 ⟨hn, h.nodup⟩, ?_, ?_, ?_, h.lo, ?_⟩
+  rotate_right
+  · intro dN hdN e he l hl
+    rcases List.mem_cons.1 he with rfl | he
+    · cases hl
+    · exact h.above dN hdN e he l hl
   · intro e he
     rcases List.mem_cons.1 he with rfl | he
     · exact hid
@@ -125,13 +135,13 @@ theorem map_fst_dropWhile (cp : Nat) : ∀ lv : Lv,
     · simp only [List.dropWhile, List.map_cons, ne_eq, h, not_false_eq_true, decide_true]
       exact ih
 
-theorem LvOK.drop {lv : Lv} {d : Nat} (h : LvOK lv d) (cp : Nat) : LvOK (lv.dropWhile (fun e => e.1 ≠ cp)) d := by
+theorem LvOK.drop {lv : Lv} {d : Nat} (h : LvOK mo lv d) (cp : Nat) : LvOK mo (lv.dropWhile (fun e => e.1 ≠ cp)) d := by
   have hsub := List.dropWhile_sublist (fun e : Nat × Option Nat => decide (e.1 ≠ cp)) (l := lv)
   refine ⟨(hsub.map Prod.fst).nodup h.nodup, fun e he => h.nz e (hsub.subset he), h.mono.sublist hsub,
-    fun e he => h.below e (hsub.subset he)⟩
+    fun e he => h.below e (hsub.subset he), h.lo, fun dN hdN e he => h.above dN hdN e (hsub.subset he)⟩
 
 /-- an element whose level is at most the level of `cp` is `cp` itself or further out -/
-theorem mem_drop_of_le {lv : Lv} {d : Nat} (h : LvOK lv d) {cp l c l' : Nat} (hcp : lv.lev cp = some l)
+theorem mem_drop_of_le {lv : Lv} {d : Nat} (h : LvOK mo lv d) {cp l c l' : Nat} (hcp : lv.lev cp = some l)
     (hc : lv.lev c = some l') (hle : l' ≤ l) : (c, some l') ∈ lv.dropWhile (fun e => e.1 ≠ cp) := by
   have hmc := Lv.mem_of_lev hc
   have hmcp := Lv.mem_of_lev hcp
@@ -163,19 +173,28 @@ theorem lev_of_sub {lv lv' : Lv} (hsub : lv'.Sublist lv) (hn : (lv.map Prod.fst)
 
 /-! ### what the search has to deliver -/
 
-structure Match (tmpl : Term) (max : Nat) (prog : List Term) (lv : Lv) (ans0 : List Term) (m m' : MS)
+/-- how the reference's search ends when the VM's search stops with a solution: enough answers
+    (the search of the query); the cut of `\\+` has been executed, then `fail` (the search nested in
+    `\\+`, `mo = some dN`) -/
+def foundStop (mo : Option Nat) (s : SLD.Stop) : Prop :=
+  match mo with
+  | none => s = .full
+  | some dN => s = .cut dN
+
+structure Match (mo : Option Nat) (tmpl : Term) (max : Nat) (prog : List Term) (lv : Lv) (ans0 : List Term) (m m' : MS)
     (sig : SigG Err) (r : SLD.Res) : Prop where
-  ans : ∃ new, m'.user.answers = new ++ ans0 ∧ Forall2 (AnsRel tmpl) new.reverse r.answers
+  ans : ∃ new, m'.user.answers = new ++ ans0 ∧ Forall2 (AnsRel tmpl) new.reverse r.answers ∧
+    (mo.isSome = true → r.answers = [])
   stop : (sig = .exhausted none ∧ r.stop = .exhausted ∧ m'.user.answers.length < max) ∨
          (∃ c l, sig = .exhausted (some c) ∧ r.stop = .cut l ∧ lv.lev c = some l ∧ m'.user.answers.length < max) ∨
-         (sig = .found ∧ r.stop = .full) ∨
+         (sig = .found ∧ foundStop mo r.stop) ∨
          (∃ F c1 c2 ex co, sig = .raised (.exc (errT F c1)) co ∧ r.stop = .raised (errT F c2) ex)
   st : StOK prog m'
   nvar : m.user.nextVar ≤ m'.user.nextVar
 
-theorem Match.from {tmpl : Term} {max : Nat} {prog : List Term} {lv : Lv} {ans0 : List Term} {m0 m m' : MS}
-    {sig : SigG Err} {r : SLD.Res} (h : Match tmpl max prog lv ans0 m m' sig r)
-    (hn : m0.user.nextVar ≤ m.user.nextVar) : Match tmpl max prog lv ans0 m0 m' sig r :=
+theorem Match.from {mo : Option Nat} {tmpl : Term} {max : Nat} {prog : List Term} {lv : Lv} {ans0 : List Term} {m0 m m' : MS}
+    {sig : SigG Err} {r : SLD.Res} (h : Match mo tmpl max prog lv ans0 m m' sig r)
+    (hn : m0.user.nextVar ≤ m.user.nextVar) : Match mo tmpl max prog lv ans0 m0 m' sig r :=
   ⟨h.ans, h.stop, h.st, Nat.le_trans hn h.nvar⟩
 
 theorem stOK_tick {prog : List Term} {m : MS} (h : StOK prog m) : StOK prog (tick m) := h
@@ -213,8 +232,26 @@ end
 /-- the side condition on one thunk evaluation (`fl = true`: `call/1` is in the fragment): if it ends
     in `call(G)`, then `G` is — as far as the model's inner fuel dereferences it — a variable or a
     body of the fragment (`ResFine`) -/
-def Good (fl : Bool) (F : Nat) (t : Thunk) (m : MS) : Prop :=
-  fl = true → ∀ res, evalThunk F t m = some res → ResFine fl res
+def Good (fl : Bool) : Nat → Thunk → MS → Prop
+  | 0, _, _ => True
+  | F + 1, t, m =>
+    fl = true →
+      (∀ res, evalThunk (F + 1) t m = some res → ResFine fl res) ∧
+      -- `\\+ G`: the goal is called by the thunk itself, in a search of its own
+      (∀ g k env, t = .negate g k env → callOK fl env g ∧
+        ∀ k' x mx, VisP (VM.sem F) 0 k' (callGoal g .done env m).1 [] (callGoal g .done env m).2 x mx → Good fl F x mx)
+
+theorem Good.fine {fl : Bool} {F : Nat} {t : Thunk} {m : MS} (h : Good fl F t m) (hfl : fl = true)
+    (res : Pr × MS) (hev : evalThunk F t m = some res) : ResFine fl res := by
+  cases F with
+  | zero => simp [evalThunk] at hev
+  | succ F' => exact (h hfl).1 res hev
+
+theorem Good.neg {fl : Bool} {F : Nat} {g : Term} {k : Cont} {env : Env} {m : MS}
+    (h : Good fl (F + 1) (.negate g k env) m) (hfl : fl = true) :
+    callOK fl env g ∧
+      ∀ k' x mx, VisP (VM.sem F) 0 k' (callGoal g .done env m).1 [] (callGoal g .done env m).2 x mx → Good fl F x mx :=
+  (h hfl).2 g k env rfl
 
 def GoodP (fl : Bool) (F k : Nat) (p : Pr) (live : List Nat) (m : MS) : Prop :=
   ∀ x mx, VisP (VM.sem F) 0 k p live m x mx → Good fl F x mx
@@ -222,16 +259,16 @@ def GoodP (fl : Bool) (F k : Nat) (p : Pr) (live : List Nat) (m : MS) : Prop :=
 def GoodA (fl : Bool) (F k : Nat) (t : Thunk) (f : Pr) (live : List Nat) (m : MS) : Prop :=
   ∀ x mx, VisA (VM.sem F) 0 k t f live m x mx → Good fl F x mx
 
-def TPk (fl : Bool) (tmpl : Term) (max : Nat) (prog : List Term) (F k : Nat) : Prop :=
+def TPk (fl : Bool) (mo : Option Nat) (tmpl : Term) (max : Nat) (prog : List Term) (F k : Nat) : Prop :=
   ∀ (p : Pr) (lv : Lv) (m : MS) (sig : SigG Err) (m' : MS),
     dfsP (VM.sem F) 0 k p (lv.map Prod.fst) m = some (sig, m') →
     GoodP fl F k p (lv.map Prod.fst) m →
-    ∀ (d : Nat) (ans0 : List Term) (r : SLD.Res), PSpecW fl tmpl max prog lv d p m ans0 r → LvOK lv d →
+    ∀ (d : Nat) (ans0 : List Term) (r : SLD.Res), PSpecW fl mo tmpl max prog lv d p m ans0 r → LvOK mo lv d →
       StOK prog m → ans0.length < max →
-      sig = .illScoped ∨ Match tmpl max prog lv ans0 m m' sig r
+      sig = .illScoped ∨ Match mo tmpl max prog lv ans0 m m' sig r
 
 /-- the thunk of the first clause, then the frame with the thunks of the other clauses -/
-def TAk (fl : Bool) (tmpl : Term) (max : Nat) (prog : List Term) (F k : Nat) : Prop :=
+def TAk (fl : Bool) (mo : Option Nat) (tmpl : Term) (max : Nat) (prog : List Term) (F k : Nat) : Prop :=
   ∀ (it : Term × Option SLD.Alt) (its : List (Term × Option SLD.Alt)) (id : Nat) (g : Term) (K : Cont) (env : Env)
     (R : List SLD.Frame) (q : Term)
     (nv n d : Nat) (r : SLD.Res) (lv : Lv) (m : MS) (sig : SigG Err) (m' : MS) (ans0 : List Term),
@@ -243,26 +280,26 @@ def TAk (fl : Bool) (tmpl : Term) (max : Nat) (prog : List Term) (F k : Nat) : P
       (lv.map Prod.fst) m →
     m.user.answers = ans0 → id ≠ 0 → id ∉ lv.map Prod.fst →
     Shape g →
-    SimAt fl tmpl max lv K env m.user.nextVar R q nv
+    SimAt fl mo tmpl max lv K env m.user.nextVar R q nv
       (fun σ π D => InD D g ∧ AltsRel fl σ π D nv d g (it :: its)) →
     SLD.solveAlts false (progS prog) n d nv ((it :: its).filterMap (·.2)) R q (max - ans0.length) = some r →
-    LvOK lv d → StOK prog m → ans0.length < max →
-    sig = .illScoped ∨ Match tmpl max prog lv ans0 m m' sig r
+    LvOK mo lv d → StOK prog m → ans0.length < max →
+    sig = .illScoped ∨ Match mo tmpl max prog lv ans0 m m' sig r
 
 /-- the thunk of the bootstrap clause `true.`, then the empty frame -/
-def TDk (fl : Bool) (tmpl : Term) (max : Nat) (prog : List Term) (F k : Nat) : Prop :=
+def TDk (fl : Bool) (mo : Option Nat) (tmpl : Term) (max : Nat) (prog : List Term) (F k : Nat) : Prop :=
   ∀ (ct : Clause) (id : Nat) (K : Cont) (env : Env) (R : List SLD.Frame) (q : Term)
     (nv n d : Nat) (r : SLD.Res) (lv : Lv) (m : MS) (sig : SigG Err) (m' : MS) (ans0 : List Term),
     dfsAlts (VM.sem F) 0 k (Thunk.clause ct [] K env id) { id := id, delayed := [] } (lv.map Prod.fst) m = some (sig, m') →
     GoodA fl F k (Thunk.clause ct [] K env id) { id := id, delayed := [] } (lv.map Prod.fst) m →
     m.user.answers = ans0 → id ≠ 0 → id ∉ lv.map Prod.fst → ct.code = [.exit] → ct.vars = [] →
-    SimAt fl tmpl max lv K env m.user.nextVar R q nv (fun _ _ _ => True) →
+    SimAt fl mo tmpl max lv K env m.user.nextVar R q nv (fun _ _ _ => True) →
     SLD.solve false (progS prog) n d nv R q (max - ans0.length) = some r →
-    LvOK lv d → StOK prog m → ans0.length < max →
-    sig = .illScoped ∨ Match tmpl max prog lv ans0 m m' sig r
+    LvOK mo lv d → StOK prog m → ans0.length < max →
+    sig = .illScoped ∨ Match mo tmpl max prog lv ans0 m m' sig r
 
 section
-variable {fl : Bool} {tmpl : Term} {max : Nat} {prog : List Term} {F : Nat}
+variable {fl : Bool} {mo : Option Nat} {tmpl : Term} {max : Nat} {prog : List Term} {F : Nat}
 
 theorem leaf_ok' {k : Nat} {p : Pr} {live : List Nat} {m : MS} (hd : p.delayed = []) (he : p.err = none) :
     dfsP (VM.sem F) 0 (k + 1) p live m = some (if p.ok then .found else .exhausted none, tick m) :=
@@ -295,9 +332,9 @@ theorem body_grel {lv : Lv} {σ' : Subst} {π' : Nat → Nat} {D' : Nat → Prop
     {G1 : List (Term × Nat)} {Bs : List Term} (hid : lv.lev id = some d)
     (h : Forall2 (fun g1 bg => InD D' g1.1 ∧ g1.2 = id ∧
       img σ' π' g1.1 = (SLD.shift nv bg).subst (substOf θ)) G1 Bs) :
-    GRel lv σ' π' D' G1 (Bs.map (fun bg => SLD.Frame.subst θ (SLD.Frame.goal (SLD.shift nv bg) d))) := by
+    GRel none lv σ' π' D' G1 (Bs.map (fun bg => SLD.Frame.subst θ (SLD.Frame.goal (SLD.shift nv bg) d))) := by
   induction h with
-  | nil => exact .nil
+  | nil => exact .nil rfl
   | cons hd _ ih =>
     refine .cons ⟨hd.1, d, Or.inl ?_, fun _ => by rw [hd.2.1]; exact hid⟩ ih
     simp only [SLD.Frame.subst, applySubst_eq, hd.2.2]
@@ -315,7 +352,7 @@ theorem forall2_left {α β : Type} {R : α → β → Prop} {P : α → Prop} {
 /-- a relation on a path stays one on a path whose level map agrees on the levels in use -/
 theorem grel_ext {lv lv1 : Lv} (hext : ∀ c l, lv.lev c = some l → lv1.lev c = some l)
     {σ : Subst} {π : Nat → Nat} {D : Nat → Prop} {G : List (Term × Nat)} {R : List SLD.Frame}
-    (h : GRel lv σ π D G R) : GRel lv1 σ π D G R := by
+    (h : GRel mo lv σ π D G R) : GRel mo lv1 σ π D G R := by
   refine h.imp ?_
   rintro g _ fr ⟨hg, l, hfr, hl⟩
   exact ⟨hg, l, hfr, fun hc => hext _ _ (hl hc)⟩
@@ -345,7 +382,7 @@ theorem cutsOK_ext {lv lv1 : Lv} (hext : ∀ c l, lv.lev c = some l → lv1.lev 
 theorem simAt_ext {lv lv1 : Lv} (hext : ∀ c l, lv.lev c = some l → lv1.lev c = some l)
     {K : Cont} {env : Env} {nvar : Nat} {R : List SLD.Frame} {q : Term} {nv : Nat}
     {P : Subst → (Nat → Nat) → (Nat → Prop) → Prop}
-    (h : SimAt fl tmpl max lv K env nvar R q nv P) : SimAt fl tmpl max lv1 K env nvar R q nv P := by
+    (h : SimAt fl mo tmpl max lv K env nvar R q nv P) : SimAt fl mo tmpl max lv1 K env nvar R q nv P := by
   obtain ⟨N, σ, π, D, G, h1, h2, h3, h4, h5, h6⟩ := h
   exact ⟨N, σ, π, D, G, h1, h2, h3, grel_ext hext h4, cutsOK_ext hext h5, h6⟩
 
@@ -360,18 +397,18 @@ theorem hext_push {lv : Lv} {id : Nat} (o : Option Nat) (hn : id ∉ lv.map Prod
 theorem absorb_found (id : Nat) (m : MS) : absorb id (SigG.found : SigG Err) m = (.found, m) := rfl
 
 /-- the search below a promise that came out of a thunk, then the frame that stayed behind -/
-theorem after_child {k : Nat} (ihP : TPk fl tmpl max prog F k) {t : Thunk} {f q0 : Pr} {lv lv1 : Lv} {d1 : Nat}
+theorem after_child {k : Nat} (ihP : TPk fl mo tmpl max prog F k) {t : Thunk} {f q0 : Pr} {lv lv1 : Lv} {d1 : Nat}
     {m m1 : MS} {sig : SigG Err} {m' : MS} {ans0 : List Term} {r1 : SLD.Res}
     (hda : dfsAlts (VM.sem F) 0 (k + 1) t f (lv.map Prod.fst) m = some (sig, m'))
     (hgood : GoodA fl F (k + 1) t f (lv.map Prod.fst) m)
     (hev : (VM.sem F).evalThunk 0 t m = some (q0, m1))
     (hlv1 : lv1.map Prod.fst = push f.id (lv.map Prod.fst))
-    (hspec : PSpecW fl tmpl max prog lv1 d1 q0 m1 ans0 r1) (hok1 : LvOK lv1 d1) (hst1 : StOK prog m1)
+    (hspec : PSpecW fl mo tmpl max prog lv1 d1 q0 m1 ans0 r1) (hok1 : LvOK mo lv1 d1) (hst1 : StOK prog m1)
     (hlt : ans0.length < max) (hrec : f.recover = none) :
     sig = .illScoped ∨
-    (∃ m2, Match tmpl max prog lv1 ans0 m1 m2 (.exhausted none) r1 ∧
+    (∃ m2, Match mo tmpl max prog lv1 ans0 m1 m2 (.exhausted none) r1 ∧
       dfsP (VM.sem F) 0 k f (lv.map Prod.fst) m2 = some (sig, m') ∧ GoodP fl F k f (lv.map Prod.fst) m2) ∨
-    (∃ sig1 m2, Match tmpl max prog lv1 ans0 m1 m2 sig1 r1 ∧ sig1 ≠ .exhausted none ∧
+    (∃ sig1 m2, Match mo tmpl max prog lv1 ans0 m1 m2 sig1 r1 ∧ sig1 ≠ .exhausted none ∧
       (sig, m') = absorb f.id sig1 m2) := by
   cases hq : dfsP (VM.sem F) 0 k q0 (push f.id (lv.map Prod.fst)) m1 with
   | none => rw [dfsAlts_child_none hev hq] at hda; cases hda
@@ -430,8 +467,8 @@ theorem absorb_cut_eq (id : Nat) (m : MS) :
     absorb id (SigG.exhausted (some id) : SigG Err) m = (.exhausted none, tick m) := by
   simp [absorb]
 
-theorem td_succ {k : Nat} (ihP : TPk fl tmpl max prog F k) (hprog : ∀ c ∈ prog, clauseS fl c = true) :
-    TDk fl tmpl max prog F (k + 1) := by
+theorem td_succ {k : Nat} (ihP : TPk fl mo tmpl max prog F k) (hprog : ∀ c ∈ prog, clauseS fl c = true) :
+    TDk fl mo tmpl max prog F (k + 1) := by
   intro ct id K env R q nv n d r lv m sig m' ans0 hda hgood hans hid0 hidn hcode hvars hsim hs hok hst hlt
   cases hev : evalThunk F (Thunk.clause ct [] K env id) m with
   | none => rw [dfsAlts_thunk_none (sem := VM.sem F) (by exact hev)] at hda; cases hda
@@ -452,7 +489,7 @@ theorem td_succ {k : Nat} (ihP : TPk fl tmpl max prog F k) (hprog : ∀ c ∈ pr
     subst hans
     have hext := hext_push (lv := lv) (id := id) none hidn
     obtain ⟨hspec, hst1, hnv1⟩ := cont_run tmpl max prog hprog fuel K env m q0 m1 hcont
-      (fun hfl => hgood _ _ .here hfl _ hev) ((id, none) :: lv) R q nv
+      (fun hfl => (hgood _ _ .here).fine hfl _ hev) ((id, none) :: lv) R q nv
       (simAt_ext hext hsim) hst n d r hs
     have hlv1 : ((id, (none : Option Nat)) :: lv).map Prod.fst =
         push ({ id := id, delayed := [] } : Pr).id (lv.map Prod.fst) := by
@@ -510,15 +547,36 @@ theorem solveAlts_frames_cons (prog : List Term) (n d nv : Nat) (fs : List SLD.F
   rw [SLD.solveAlts]
   rfl
 
+/-- the search stopped with a solution: the reference's result passes the alternatives of a call -/
+theorem found_pass {mo : Option Nat} {d : Nat} {r1 r : SLD.Res} {X : Option SLD.Res}
+    (hf : foundStop mo r1.stop) (hlo : ∀ dN, mo = some dN → dN < d)
+    (h : (match r1.stop with
+      | .exhausted => X
+      | .cut c' => some { r1 with stop := if c' = d then .exhausted else .cut c' }
+      | _ => some r1) = some r) : r = r1 := by
+  cases mo with
+  | none =>
+    have hf' : r1.stop = .full := hf
+    rw [hf'] at h
+    exact (Option.some.inj h).symm
+  | some dN =>
+    have hf' : r1.stop = .cut dN := hf
+    have hne : dN ≠ d := by have := hlo dN rfl; omega
+    rw [hf'] at h
+    simp only [hne, if_false, Option.some.injEq] at h
+    rw [← h]
+    cases r1
+    simp_all
+
 /-- the head of the first clause does not unify: the VM goes on with the other clauses -/
-theorem alt_fail {k : Nat} (ihP : TPk fl tmpl max prog F k) {t : Thunk} {f : Pr} {lv : Lv} {d : Nat}
+theorem alt_fail {k : Nat} (ihP : TPk fl mo tmpl max prog F k) {t : Thunk} {f : Pr} {lv : Lv} {d : Nat}
     {m : MS} {N' : Nat} {sig : SigG Err} {m' : MS} {r : SLD.Res}
     (hda : dfsAlts (VM.sem F) 0 (k + 1) t f (lv.map Prod.fst) m = some (sig, m'))
     (hgood : GoodA fl F (k + 1) t f (lv.map Prod.fst) m)
     (hev : evalThunk F t m = some (failP, bump m N')) (hN' : m.user.nextVar ≤ N')
-    (hspec : PSpecW fl tmpl max prog lv d f (tick (bump m N')) m.user.answers r)
-    (hok : LvOK lv d) (hst : StOK prog m) (hlt : m.user.answers.length < max) :
-    sig = .illScoped ∨ Match tmpl max prog lv m.user.answers m m' sig r := by
+    (hspec : PSpecW fl mo tmpl max prog lv d f (tick (bump m N')) m.user.answers r)
+    (hok : LvOK mo lv d) (hst : StOK prog m) (hlt : m.user.answers.length < max) :
+    sig = .illScoped ∨ Match mo tmpl max prog lv m.user.answers m m' sig r := by
   cases k with
   | zero =>
     rw [dfsAlts_child_none (sem := VM.sem F) (q := failP) (m1 := bump m N') (by exact hev) (by simp [dfsP])] at hda
@@ -534,15 +592,15 @@ theorem alt_fail {k : Nat} (ihP : TPk fl tmpl max prog F k) {t : Thunk} {f : Pr}
     · exact Or.inr (hm.from hN')
 
 /-- the body of the first clause has been searched (`r1`), the reference goes on as `hpost` says -/
-theorem alt_tail {k : Nat} (ihP : TPk fl tmpl max prog F k) {t : Thunk} {f q0 : Pr} {lv : Lv} {d id : Nat}
+theorem alt_tail {k : Nat} (ihP : TPk fl mo tmpl max prog F k) {t : Thunk} {f q0 : Pr} {lv : Lv} {d id : Nat}
     {m m1 : MS} {sig : SigG Err} {m' : MS} {r1 r : SLD.Res} {n' nv : Nat} {as : List SLD.Alt}
     {R : List SLD.Frame} {q : Term}
     (hda : dfsAlts (VM.sem F) 0 (k + 1) t f (lv.map Prod.fst) m = some (sig, m'))
     (hgood : GoodA fl F (k + 1) t f (lv.map Prod.fst) m)
     (hev : evalThunk F t m = some (q0, m1))
     (hfid : f.id = id) (hfrec : f.recover = none) (hid0 : id ≠ 0) (hidn : id ∉ lv.map Prod.fst)
-    (hok : LvOK lv d) (hlt : m.user.answers.length < max)
-    (hspec : PSpecW fl tmpl max prog ((id, some d) :: lv) (d + 1) q0 m1 m.user.answers r1)
+    (hok : LvOK mo lv d) (hlt : m.user.answers.length < max)
+    (hspec : PSpecW fl mo tmpl max prog ((id, some d) :: lv) (d + 1) q0 m1 m.user.answers r1)
     (hst1 : StOK prog m1) (hmm1 : m.user.nextVar ≤ m1.user.nextVar)
     (hpost : (match r1.stop with
       | .exhausted => (SLD.solveAlts false (progS prog) n' d nv as R q
@@ -551,11 +609,11 @@ theorem alt_tail {k : Nat} (ihP : TPk fl tmpl max prog F k) {t : Thunk} {f q0 : 
       | _ => some r1) = some r)
     (hrest : ∀ (m2 : MS) (r' : SLD.Res), m.user.nextVar ≤ m2.user.nextVar → StOK prog m2 →
       SLD.solveAlts false (progS prog) n' d nv as R q (max - m2.user.answers.length) = some r' →
-      PSpec fl tmpl max prog lv d f m2 m2.user.answers r') :
-    sig = .illScoped ∨ Match tmpl max prog lv m.user.answers m m' sig r := by
+      PSpec fl mo tmpl max prog lv d f m2 m2.user.answers r') :
+    sig = .illScoped ∨ Match mo tmpl max prog lv m.user.answers m m' sig r := by
   have hlv1 : ((id, some d) :: lv).map Prod.fst = push f.id (lv.map Prod.fst) := by
     simp [push, hfid, hid0]
-  have hok1 : LvOK ((id, some d) :: lv) (d + 1) := hok.push hid0 hidn
+  have hok1 : LvOK mo ((id, some d) :: lv) (d + 1) := hok.push hid0 hidn
   rcases after_child ihP hda hgood (by exact hev) hlv1 hspec hok1 hst1 hlt hfrec with
     hill | ⟨m2, hm, hf, hgf⟩ | ⟨sig1, m2, hm, hne, hresA⟩
   · exact Or.inl hill
@@ -564,7 +622,7 @@ theorem alt_tail {k : Nat} (ihP : TPk fl tmpl max prog F k) {t : Thunk} {f q0 : 
     · rw [hstop] at hpost
       simp only [Option.map_eq_some_iff] at hpost
       obtain ⟨r', hr', rfl⟩ := hpost
-      obtain ⟨new1, hnew1, hfa1⟩ := hm.ans
+      obtain ⟨new1, hnew1, hfa1, hna1⟩ := hm.ans
       have hl1 : new1.length = r1.answers.length := by
         have := hfa1.length_eq; simpa using this
       have hlim : max - m.user.answers.length - r1.answers.length = max - m2.user.answers.length := by
@@ -574,11 +632,13 @@ theorem alt_tail {k : Nat} (ihP : TPk fl tmpl max prog F k) {t : Thunk} {f q0 : 
         (hrest m2 r' (Nat.le_trans hmm1 hm.nvar) hm.st hr').toW hok hm.st hlen with hill | hm2
       · exact Or.inl hill
       · right
-        obtain ⟨new2, hnew2, hfa2⟩ := hm2.ans
-        refine ⟨⟨new2 ++ new1, by rw [hnew2, hnew1, List.append_assoc], ?_⟩, ?_, hm2.st,
+        obtain ⟨new2, hnew2, hfa2, hna2⟩ := hm2.ans
+        refine ⟨⟨new2 ++ new1, by rw [hnew2, hnew1, List.append_assoc], ?_, ?_⟩, ?_, hm2.st,
           Nat.le_trans hmm1 (Nat.le_trans hm.nvar hm2.nvar)⟩
         · rw [List.reverse_append]
           exact hfa1.append hfa2
+        · intro hmo
+          simp [SLD.Res.prepend, hna1 hmo, hna2 hmo]
         · exact hm2.stop
     · cases h1
     · cases h1
@@ -610,9 +670,8 @@ theorem alt_tail {k : Nat} (ihP : TPk fl tmpl max prog F k) {t : Thunk} {f q0 : 
         exact ⟨hm.ans, Or.inr (Or.inl ⟨c0, l, rfl, by simp [hld], h3, h4⟩), hm.st,
           Nat.le_trans hmm1 hm.nvar⟩
     · subst h1
-      rw [hstop] at hpost
-      simp only [Option.some.injEq] at hpost
-      subst hpost
+      have := found_pass hstop hok.lo hpost
+      subst this
       rw [absorb_found] at hresA
       simp only [Prod.mk.injEq] at hresA
       obtain ⟨rfl, rfl⟩ := hresA
